@@ -95,6 +95,13 @@ func classify(out string) string {
 	if strings.TrimSpace(out) == "" {
 		return "timeout" // killed by the CPU-time limit before answering
 	}
+	// a solver that rejects part of the query has not decided it (z3 keeps going after an
+	// erroneous command and would answer for the remaining ones)
+	for _, line := range strings.Split(out, "\n") {
+		if strings.HasPrefix(strings.TrimSpace(line), "(error") {
+			return "error"
+		}
+	}
 	for _, line := range strings.Split(out, "\n") {
 		line = strings.TrimSpace(line)
 		switch line {
